@@ -71,6 +71,8 @@ def execute(sc):
                 raise AwError(c)
             return ('val', c)
         kind = aw.get('kind', 'coro')
+        if kind == 'donefut':
+            return pre[c]
         if kind == 'coro':
             return coro()
         if kind == 'task':
@@ -87,6 +89,17 @@ def execute(sc):
             loop_for_objects.call_later(dur, resolve)
             return fut
         raise ValueError(kind)
+
+    # futures on T that are already resolved before anybody awaits them (created before T is closed)
+    pre = {}
+    for cs in sc['callers']:
+        if cs['aw'].get('kind') == 'donefut':
+            f = T.create_future()
+            if cs['aw'].get('out') == 'exc':
+                f.set_exception(AwError(cs['c']))
+            else:
+                f.set_result(('val', cs['c']))
+            pre[cs['c']] = f
 
     def caller_thread(cs):
         name = cs['thr']
@@ -153,7 +166,7 @@ def execute(sc):
     for cs in sc['callers']:
         ctl.spawn(cs['thr'], caller_thread, cs)
     ctl.start()
-    if not ctl.finished.wait(sc.get('wall', 20.0)):
+    if not ctl.finished.wait(sc.get('wall', 6.0)):
         ctl.status = 'stuck'
     ctl.log('End', status=ctl.status if ctl.status in ('ok', 'hang') else 'stuck')
     return rt.result_payload(ctl)
